@@ -35,6 +35,10 @@ ConnackCases ==
   UNION { UNION { { [Case0 EXCEPT !.t = "CONNACK", !.props = q, !.sp = sp, !.rc = 0] : q \in WithUps(p), sp \in BOOLEAN } : p \in Orders(S) } : S \in ConnackSubsets }
   \cup { [Case0 EXCEPT !.t = "CONNACK", !.rc = rc, !.props = ps] : rc \in ConnackReasons,
            ps \in {<<>>, <<PS(31, F("no", 2)), Ups1, Ups2>>, <<Ups1, PS(28, F("other", 5)), PS(31, F("moved", 5))>>} }
+  \* a refusal may carry any CONNACK property, including "Subscription Identifiers unavailable" (only the successful CONNACK
+  \* announcing that is excluded by the property): the error accessors must still report the wire values
+  \cup UNION { UNION { { [Case0 EXCEPT !.t = "CONNACK", !.rc = rc, !.props = q] : q \in WithUps(p), rc \in {128, 135, 157} } : p \in Orders(S) }
+              : S \in {T \in SUBSET (ConnackPropPool \cup {PI(41, 0), PI(41, 1)}) : Cardinality(T) \in 1..2 /\ ~({PI(41, 0), PI(41, 1)} \subseteq T)} }
   \cup { [Case0 EXCEPT !.t = "CONNACK", !.props = <<p>>] : p \in
            {PQ(17, x) : x \in U32s} \cup {PQ(39, x) : x \in U32s \ {<<0, 0, 0, 0>>}} \cup {PI(33, x) : x \in {1, 255, 256, 65535}}
            \cup {PI(34, x) : x \in {0, 1, 65535}} \cup {PI(19, x) : x \in {0, 1, 65535}} \cup {PI(36, x) : x \in {0, 1}}
